@@ -195,6 +195,15 @@ Theorem C16_jwt_decode_iff : forall parse_header parse_claims tok t,
 Proof. exact decode_ok_iff. Qed.
 Print Assumptions C16_jwt_decode_iff.
 
+(** No second spelling: the signed text and the signature bytes a token
+    decodes to determine its text (HS256 and RS256 alike). *)
+Theorem C16_jwt_text_determined : forall parse_header parse_claims tok tok' t t',
+  decode parse_header parse_claims b64_decode_canon tok = JOk t ->
+  decode parse_header parse_claims b64_decode_canon tok' = JOk t' ->
+  t_payload t = t_payload t' -> t_sig t = t_sig t' -> tok = tok'.
+Proof. exact decode_injective. Qed.
+Print Assumptions C16_jwt_text_determined.
+
 Theorem C16_jwt_hs_verify_iff : forall K (mac : K -> bytes -> bytes) parse_header parse_claims,
   mac_bytes_law mac ->
   forall k pin now tok t,
